@@ -135,12 +135,15 @@ def time_value(t, form):
     raise HarnessError(f"unknown time form {form}")
 
 
-def observe(obj, code, tv, window, skew, last):
-    """run the real match(); -> (class, detail...)"""
+def observe(obj, code, tv, window, skew, last, entry="match"):
+    """run the real match() -- or the TOTP.verify() wrapper around it (entry = 'verify') -- -> (class, detail...)"""
     from passlib import exc
 
     try:
-        m = obj.match(code, tv, window=window, skew=skew, last_counter=last)
+        if entry == "match":
+            m = obj.match(code, tv, window=window, skew=skew, last_counter=last)
+        else:
+            m = type(obj).verify(code, obj, time=tv, window=window, skew=skew, last_counter=last)
     except exc.TokenError as e:
         if type(e) is exc.MalformedTokenError:
             return (R.MALFORMED,)
@@ -193,6 +196,11 @@ def position(want, code_text, inv, t, window, skew, last, period):
 # ---------------------------------------------------------------------------
 # single-case evaluator (E1), also used by replay
 # ---------------------------------------------------------------------------
+#: [cases seen, stride]: the verify() comparison is made on every case in quick and in replays, on every 4th
+#: case of the (8x larger) thorough product; the history search compares on every transition in both tiers
+_VFY = [-1, 1]
+
+
 def eval_match(case, obj=None, codes=None, inv=None):
     fam, key, alg, digits, period = (case[k] for k in ("fam", "key", "alg", "digits", "period"))
     window, skew, last, t, code = (case[k] for k in ("window", "skew", "last", "t", "code"))
@@ -210,6 +218,13 @@ def eval_match(case, obj=None, codes=None, inv=None):
     got = observe(obj, code, time_value(t, tform), window, skew, last)
     pos = label if want[0] == R.MALFORMED else position(want, text, inv, t, window, skew, last, period)
     info = (want, pos, got)
+    # the documented convenience entry point TOTP.verify(token, source, **match options) must answer like match()
+    _VFY[0] += 1
+    got_v = got if (_VFY[0] % _VFY[1]) else observe(obj, code, time_value(t, tform), window, skew, last, entry="verify")
+    if got_v != got:
+        return [(f"C14|verify|{fam}:differs_from_match:match={got[0]}:verify={got_v[0]}",
+                 f"{fam} period={period} window={window} skew={skew} last_counter={last} time={t} ({tform}) code={code!r}: "
+                 f"match() {got!r} but TOTP.verify(code, obj, ...) {got_v!r}")], info
     if oddity == "non_ascii_digits":
         # neither the statement nor the docs say whether digits of another script are 'malformed' or merely
         # 'invalid'; both refusals are admitted, anything else is not
@@ -272,6 +287,9 @@ def step(obj, cfg, codes, state, event):
     got = observe(obj, code, t, window, skew, L)
     out = []
     fam = cfg["fam"]
+    got_v = observe(obj, code, t, window, skew, L, entry="verify")
+    if got_v != got:
+        out.append((f"C14|history|{fam}:verify_differs_from_match", f"state last_counter={L} event time={t} code={code!r}: match() {got!r}, TOTP.verify() {got_v!r}"))
     if got[:2] != want[:2]:
         out.append((f"C14|history|{fam}:model={want[0]}:impl={got[0] if got[0] != want[0] else 'other_counter'}",
                     f"state last_counter={L} accepted={list(accepted)} event time={t} code={code!r}: model {want!r}, match() {got!r}"))
@@ -394,6 +412,7 @@ def odd_codes(digits, good):
 
 
 def work(task):
+    _VFY[1] = 1 if task.get("quick", True) else 4
     if task["part"] == "history":
         return explore(task)
     acc = Acc()
@@ -506,7 +525,7 @@ def run(ctx):
                         for part in ("product", "forms"):
                             tasks.append({"part": part, "fam": fam, "key": key, "alg": alg, "digits": digits, "period": period,
                                           "window": window, "skew": skew, "T": T if period < 30 else max(T, 100),
-                                          "near": 2 if ctx.quick else None})
+                                          "near": 2 if ctx.quick else None, "quick": ctx.quick})
     # heavy shards first (small periods have the most counters)
     def cost(t):
         top = max(t["T"] + t["skew"] + t["window"], t["T"]) // t["period"] + 2
@@ -526,7 +545,7 @@ def run(ctx):
             stride = 1 if period < 30 else 7
             htasks.append({"part": "history", "fam": fam, "key": filler(seed, 20, b"hist"), "alg": "sha1", "digits": 6,
                            "period": period, "window": window, "skew": skew, "top": top,
-                           "times": list(range(0, tmax + 1, stride)), "state_cap": 2 ** (top + 1) + 2})
+                           "times": list(range(0, tmax + 1, stride)), "state_cap": 2 ** (top + 1) + 2, "quick": ctx.quick})
     ctx.log(f"{len(tasks)} product shards, {len(htasks)} history explorations")
     hacc = core.pmap(work, htasks + tasks)
     states = hacc.counters.pop("states", 0)
